@@ -256,11 +256,15 @@ def allcloseOne (s : Rat) : Bool :=
   let d := if s - 1 < 0 then 1 - s else s - 1
   decide (d ≤ (11 : Rat) / 1000000)
 
+/-- `fixed_param_mask`, all `False` when `None` is passed -/
+def fixedOf (params : List Rat) (mask : Option (List Bool)) : List Bool :=
+  match mask with
+  | none => List.replicate params.length false
+  | some m => m
+
 /-- `_handle_amplitude_constraint(n, params, fixed_mask)`; `none` = `ValueError` -/
 def handleConstraint (n : Nat) (params : List Rat) (mask : Option (List Bool)) : Option Constraint :=
-  let fixed := match mask with
-    | none => List.replicate params.length false
-    | some m => m
+  let fixed := fixedOf params mask
   if fixed.length ≠ params.length then none
   else if params.length ≠ 2 * n then none
   else
@@ -328,6 +332,12 @@ def uniqFirst : List Nat → List Nat
 def tracksByKymo (tracks : List Track) : List (List Track) :=
   (uniqFirst (tracks.map (·.kymo))).map fun k => tracks.filter (·.kymo = k)
 
+/-- all entries present, or `none` -/
+def allSome {β : Type} : List (Option β) → Option (List β)
+  | [] => some []
+  | none :: _ => none
+  | some x :: xs => (allSome xs).map (x :: ·)
+
 /-- minimum of a non-empty list of rationals (`np.min`), `0` if empty -/
 def minL : List Rat → Rat
   | [] => 0
@@ -351,14 +361,14 @@ def extractGroup (excl observedMin : Bool) (group : List Track) : Option (List R
         let m := minL nz
         some (kept.map fun t => ⟨t.duration, m, maxObs, g0.lineTime⟩, removed)
       else
-        match kept.mapM (·.minObs) with
+        match allSome (kept.map (·.minObs)) with
         | none => none
         | some ms => some ((kept.zip ms).map fun (t, m) => ⟨t.duration, m, maxObs, g0.lineTime⟩, removed)
 
 /-- `_extract_dwelltime_data_from_groups(_tracks_by_kymo(), excl, observed_minimum=…)`:
     the stacked rows and the `removed_zeros` flag -/
 def extract (excl observedMin : Bool) (tracks : List Track) : Option (List Row × Bool) :=
-  match (tracksByKymo tracks).mapM (extractGroup excl observedMin) with
+  match allSome ((tracksByKymo tracks).map (extractGroup excl observedMin)) with
   | none => none
   | some parts => some (parts.flatMap (·.1), parts.any (·.2))
 
